@@ -300,6 +300,8 @@ func execOp(s *Sexp) string {
 		return ""
 	}
 	switch h {
+	case "descjson":
+		return execDescJSON(s)
 	case "jsonout":
 		return execJSONOut(s)
 	case "internseq":
